@@ -190,6 +190,11 @@ RECURSIVE Manifest(_, _)
 RECURSIVE CompSpecs(_, _, _, _, _)
 RECURSIVE BinOp(_, _, _, _)
 RECURSIVE StdCall(_, _, _, _, _)
+RECURSIVE LibCall(_, _, _, _, _)
+RECURSIVE FoldR(_, _, _, _)
+RECURSIVE FlatDeep(_, _)
+RECURSIVE DeepJoin(_, _)
+RECURSIVE MinMaxScan(_, _, _, _, _)
 RECURSIVE FoldL(_, _, _, _)
 RECURSIVE ForceAll(_, _)
 RECURSIVE FromJson(_)
@@ -527,6 +532,356 @@ RemoveKey(o, k) ==
                             <<"vals", <<"o">>, <<ValTh(o)>> >> >>],
                <<>>, <<>>, <<>>, TRUE>> >>, FALSE)
 
+\* v[a:b:s] on values; ix = <<a, b, s>>, each null or a number (also std.slice(v, a, b, s)).
+\* Positions count elements of an array / code points of a string; a negative bound counts from the end
+\* (upstream std.slice: index < 0 -> std.max(0, length + index), end < 0 -> length + end); the step must be positive.
+SliceV(v, ix) ==
+  IF v[1] \notin {"arr", "str"} THEN RtErr
+  ELSE IF \E k \in 1..3 : ix[k][1] \notin {"null", "num"} THEN RtErr
+  ELSE LET n == Len(v[2])
+           fromEnd(i) == IF i >= 0 THEN i ELSE IF n + i < 0 THEN 0 ELSE n + i
+           a == IF ix[1][1] = "null" THEN 0 ELSE fromEnd(ix[1][2])
+           b0 == IF ix[2][1] = "null" THEN n ELSE fromEnd(ix[2][2])
+           b == IF b0 > n THEN n ELSE b0
+           s == IF ix[3][1] = "null" THEN 1 ELSE ix[3][2] IN
+       IF s <= 0 THEN RtErr
+       ELSE LET cnt == IF b <= a THEN 0 ELSE ((b - a - 1) \div s) + 1
+                sel == [k \in 1..cnt |-> v[2][a + (k - 1) * s + 1]] IN
+            Ok(IF v[1] = "arr" THEN ArrV(sel) ELSE StrV(sel))
+
+-----------------------------------------------------------------------------
+(* Library members defined by the upstream standard library (std.jsonnet and *)
+(* its documentation): what the result is, which elements of the argument    *)
+(* data are forced, and in which order failures surface.                     *)
+(*  - ARRAY ELEMENTS / OBJECT FIELDS: forced exactly as the definition says  *)
+(*    (this is what laziness means for data).                                *)
+(*  - two strict arguments: Both / AllOf (different failures = any); loops   *)
+(*    that upstream runs element by element: SeqOf (first failure wins).     *)
+(*  - The language definition does not fix the strictness of library members *)
+(*    beyond what the result needs, and the upstream libraries (std.jsonnet, *)
+(*    the C++ and Go natives) differ among themselves.  Where rsjsonnet's    *)
+(*    member differs from the text of upstream std.jsonnet the difference is *)
+(*    a NAMED DEVIATION selected by StdReading (like RmMode):                *)
+(*      "rsjsonnet" = what the implementation under test defines (default),  *)
+(*      "upstream"  = the text of std.jsonnet; where that text only happens  *)
+(*                    to compute something outside the documented argument   *)
+(*                    types (`[] + "s"` in std.flattenArrays, folding over a *)
+(*                    string ...) the upstream reading is Outside.           *)
+(*    DEV-1 std.member(arr, x) on arrays: stops at the first equal element   *)
+(*          | upstream std.count(arr, x) > 0 compares every element          *)
+(*    DEV-2 std.remove(arr, elem): stops at the first equal element          *)
+(*          | upstream std.find(elem, arr) compares every element            *)
+(*    DEV-3 std.removeAt(arr, at): both arguments forced, `at` must be a     *)
+(*          number, arr an array | upstream never looks at `at` for an empty *)
+(*          array and compares it with `!=` (any type)                       *)
+(*    DEV-4 std.clamp: x, minVal, maxVal all forced and checked to be        *)
+(*          numbers | upstream `if x < minVal then minVal else ...` does not *)
+(*          touch maxVal when x < minVal (the documentation says             *)
+(*          std.max(minVal, std.min(x, maxVal)))                             *)
+(*    DEV-5 std.member(str, "") is true | upstream                           *)
+(*          std.length(std.findSubstr("", str)) > 0 is false                 *)
+(*    DEV-6 std.foldr(func, [], init): func forced and must be a function    *)
+(*          (as std.foldl in StdCall) | upstream never touches func          *)
+(*    DEV-7 std.range(from, to) with to < from - 1 is [] | upstream          *)
+(*          std.makeArray(negative) fails                                    *)
+(*    DEV-8 std.minArray/maxArray([x]) is x for every x | upstream compares  *)
+(*          x with itself (fails for objects, booleans, null, functions)     *)
+(*    DEV-9 wrong container types are type errors (std.reverse of an object, *)
+(*          folding / summing / flattening / comparing strings and objects,  *)
+(*          string elements in std.flattenArrays / std.sum / std.flatMap)    *)
+(*          | the upstream text computes something there: Outside            *)
+StdReading == "rsjsonnet"
+Impl == StdReading = "rsjsonnet"
+\* argument types on which only the upstream TEXT computes something (DEV-9)
+Junk(types) == IF Impl THEN {} ELSE types
+
+\* r checked against the documented argument types: good -> r, out -> Outside, else a type error
+ChkT(r, good, out) ==
+  IF r[1] # "ok" THEN r
+  ELSE IF r[2][1] \in good THEN r ELSE IF r[2][1] \in out THEN Outside ELSE RtErr
+\* same for members that are written in Jsonnet (the wording and kind of the failure differ between libraries)
+ChkA(r, good) == IF r[1] # "ok" THEN r ELSE IF r[2][1] \in good THEN r ELSE ErrAny
+
+AllTypes == {"null", "bool", "num", "str", "arr", "obj", "func"}
+Containers == {"str", "obj", "func"}      \* what std.length accepts besides arrays
+
+\* results demanded one after the other: the first failure is the outcome
+RECURSIVE SeqOf(_)
+SeqOf(rs) ==
+  IF rs = <<>> THEN Ok(<<>>)
+  ELSE Bind(Head(rs), LAMBDA v : Bind(SeqOf(Tail(rs)), LAMBDA vs : Ok(<<v>> \o vs)))
+
+RECURSIVE CatAll(_)
+CatAll(ss) == IF ss = <<>> THEN <<>> ELSE Head(ss) \o CatAll(Tail(ss))
+
+RECURSIVE SumSeq(_)
+SumSeq(ns) == IF ns = <<>> THEN 0 ELSE Head(ns) + SumSeq(Tail(ns))
+
+IsSub(p, s) == \E i \in 0..(Len(s) - Len(p)) : SubSeq(s, i + 1, i + Len(p)) = p
+
+\* std.foldr: like std.foldl from the right; the running value is forced at every step, init is not
+FoldR(f, ts, acc, fuel) ==
+  IF fuel = 0 THEN Bottom ELSE
+  IF ts = <<>> THEN Force(acc, fuel)
+  ELSE Bind(Force(AppTh(f, <<ts[Len(ts)], acc>>), fuel - 1),
+            LAMBDA v : FoldR(f, SubSeq(ts, 1, Len(ts) - 1), ValTh(v), fuel - 1))
+
+\* std.flattenDeepArray: `[y for x in value for y in std.flattenDeepArray(x)]`, every leaf is forced
+FlatDeep(v, fuel) ==
+  IF fuel = 0 THEN Bottom ELSE
+  IF v[1] # "arr" THEN Ok(<<ValTh(v)>>)
+  ELSE Bind(AllOf([i \in 1..Len(v[2]) |-> Bind(Force(v[2][i], fuel - 1), LAMBDA x : FlatDeep(x, fuel - 1))]),
+            LAMBDA ps : Ok(CatAll(ps)))
+
+\* std.deepJoin: strings and arrays of such, concatenated left to right
+DeepJoin(v, fuel) ==
+  IF fuel = 0 THEN Bottom ELSE
+  CASE v[1] = "str" -> Ok(v[2])
+    [] v[1] = "arr" ->
+         Bind(SeqOf([i \in 1..Len(v[2]) |-> Bind(Force(v[2][i], fuel - 1), LAMBDA x : DeepJoin(x, fuel - 1))]),
+              LAMBDA ps : Ok(CatAll(ps)))
+    [] OTHER -> RtErr
+
+\* std.join(sep, arr) on checked values: elements are forced left to right, null elements are skipped,
+\* the others must have the type of sep; array results share the element thunks (nothing inside is forced)
+JoinV(sep, a, fuel) ==
+  Bind(SeqOf([i \in 1..Len(a[2]) |-> Bind(Force(a[2][i], fuel), LAMBDA x :
+                IF x[1] = "null" \/ x[1] = sep[1] THEN Ok(x) ELSE RtErr)]), LAMBDA xs :
+    LET kept == SelectSeq(xs, LAMBDA x : x[1] # "null") IN
+    Ok(<<sep[1], JoinCps([i \in 1..Len(kept) |-> kept[i][2]], sep[2])>>))
+
+\* element == x for every element (std.filter / std.find scan the whole array)
+EqAll(ts, x, fuel) == AllOf([i \in 1..Len(ts) |-> EqualTh(ts[i], x, fuel)])
+
+\* std.any (stop = TRUE) / std.all (stop = FALSE): left to right, stops at the first deciding element
+AnyAll(ts, stop, fuel) ==
+  LET go[i \in 0..Len(ts)] ==
+        IF i = Len(ts) THEN Ok(BoolV(~stop))
+        ELSE Bind(Force(ts[i + 1], fuel), LAMBDA b :
+               IF b[1] # "bool" THEN RtErr ELSE IF b[2] = stop THEN Ok(BoolV(stop)) ELSE go[i + 1])
+  IN go[0]
+
+\* std.contains(arr, elem) == std.any([e == elem for e in arr])
+ContainsV(ts, x, fuel) ==
+  LET go[i \in 0..Len(ts)] ==
+        IF i = Len(ts) THEN Ok(BoolV(FALSE))
+        ELSE Bind(EqualTh(ts[i + 1], x, fuel), LAMBDA e : IF e THEN Ok(BoolV(TRUE)) ELSE go[i + 1])
+  IN go[0]
+
+\* std.sum == std.foldl(function(a, b) a + b, arr, 0) on numbers (a string element makes upstream concatenate)
+SumV(ts, fuel) ==
+  Bind(SeqOf([i \in 1..Len(ts) |-> Bind(Force(ts[i], fuel), LAMBDA x :
+                IF x[1] = "num" THEN Ok(x[2]) ELSE IF x[1] \in Junk({"str"}) THEN Outside ELSE RtErr)]),
+       LAMBDA ns : NumR(SumSeq(ns)))
+
+\* std.minArray / std.maxArray(arr): std.foldl over the array keeping the first extremal element by
+\* std.__compare: elements are forced left to right, each compared with the best so far
+MinMaxScan(ts, i, best, isMin, fuel) ==
+  IF fuel = 0 THEN Bottom ELSE
+  IF i > Len(ts) THEN Ok(best)
+  ELSE Bind(Force(ts[i], fuel - 1), LAMBDA x :
+         Bind(CmpV(best, x, fuel - 1), LAMBDA k :
+           MinMaxScan(ts, i + 1, IF (IF isMin THEN k > 0 ELSE k < 0) THEN x ELSE best, isMin, fuel - 1)))
+MinMaxV(ts, isMin, fuel) ==
+  IF ts = <<>> THEN ErrAny
+  ELSE Bind(Force(ts[1], fuel), LAMBDA v1 :
+         IF Impl /\ Len(ts) = 1 THEN Ok(v1)                     \* DEV-8
+         ELSE IF ~Impl /\ v1[1] \notin {"num", "str", "arr"} THEN RtErr   \* upstream compares arr[0] with itself first
+         ELSE MinMaxScan(ts, 2, v1, isMin, fuel))
+
+TypeTag(name) ==
+  CASE name = "isString" -> "str" [] name = "isNumber" -> "num" [] name = "isBoolean" -> "bool"
+    [] name = "isObject" -> "obj" [] name = "isArray" -> "arr" [] name = "isFunction" -> "func"
+    [] name = "isNull" -> "null"
+
+LibCall(name, args, env, sc, fuel) ==
+  IF fuel = 0 THEN Bottom ELSE
+  LET A(i) == Eval(args[i], env, sc, fuel - 1)
+      T(i) == Th(args[i], env, sc)
+      f1 == fuel - 1 IN
+  CASE name \in {"isString", "isNumber", "isBoolean", "isObject", "isArray", "isFunction", "isNull"} /\ Len(args) = 1 ->
+         Bind(A(1), LAMBDA v : Ok(BoolV(v[1] = TypeTag(name))))
+    [] name = "xor" /\ Len(args) = 2 -> Both(A(1), A(2), LAMBDA a, b : BinOp("!=", a, b, f1))
+    [] name = "xnor" /\ Len(args) = 2 -> Both(A(1), A(2), LAMBDA a, b : BinOp("==", a, b, f1))
+    [] name \in {"isEven", "isOdd", "isInteger", "isDecimal"} /\ Len(args) = 1 ->
+         \* numbers of this specification are integers
+         Bind(ChkT(A(1), {"num"}, {}), LAMBDA v :
+           Ok(BoolV(CASE name = "isEven" -> Fmod(v[2], 2) = 0 [] name = "isOdd" -> Fmod(v[2], 2) # 0
+                      [] name = "isInteger" -> TRUE [] name = "isDecimal" -> FALSE)))
+    [] name = "abs" /\ Len(args) = 1 ->
+         Bind(ChkA(A(1), {"num"}), LAMBDA v : NumR(IF v[2] > 0 THEN v[2] ELSE -v[2]))
+    [] name = "sign" /\ Len(args) = 1 ->
+         Bind(ChkA(A(1), {"num"}), LAMBDA v : Ok(NumV(IF v[2] > 0 THEN 1 ELSE IF v[2] < 0 THEN -1 ELSE 0)))
+    [] name \in {"max", "min"} /\ Len(args) = 2 ->
+         Both(ChkA(A(1), {"num"}), ChkA(A(2), {"num"}), LAMBDA a, b :
+           Ok(IF name = "max" THEN (IF a[2] > b[2] THEN a ELSE b) ELSE (IF a[2] < b[2] THEN a ELSE b)))
+    [] name = "clamp" /\ Len(args) = 3 ->
+         IF Impl THEN   \* DEV-4: three assertions (x, minVal, maxVal are numbers), then the comparison chain
+            Bind(AllOf(<<ChkA(A(1), {"num"}), ChkA(A(2), {"num"}), ChkA(A(3), {"num"})>>), LAMBDA vs :
+              Ok(IF vs[1][2] < vs[2][2] THEN vs[2] ELSE IF vs[1][2] > vs[3][2] THEN vs[3] ELSE vs[1]))
+         ELSE
+         \* documented as std.max(minVal, std.min(x, maxVal)); the source text is
+         \* `if x < minVal then minVal else if x > maxVal then maxVal else x`: decided where the two agree
+         Both(ChkT(A(1), {"num"}, AllTypes), ChkT(A(2), {"num"}, AllTypes), LAMBDA x, lo :
+           LET r3 == ChkT(A(3), {"num"}, AllTypes) IN
+           IF r3[1] = "ok" THEN (IF lo[2] > r3[2][2] THEN Outside
+                                 ELSE Ok(IF x[2] < lo[2] THEN lo ELSE IF x[2] > r3[2][2] THEN r3[2] ELSE x))
+           ELSE IF r3[1] = "err" /\ x[2] < lo[2] THEN Outside ELSE r3)
+    [] name = "mapWithIndex" /\ Len(args) = 2 ->
+         Both(ChkT(A(1), {"func"}, {}), ChkT(A(2), {"arr", "str"}, {}), LAMBDA f, a :
+           Ok(ArrV([i \in 1..Len(a[2]) |->
+                      AppTh(f, <<ValTh(NumV(i - 1)),
+                                 IF a[1] = "arr" THEN a[2][i] ELSE ValTh(StrV(<<a[2][i]>>))>>)])))
+    [] name = "filterMap" /\ Len(args) = 3 ->
+         \* std.map(map_func, std.filter(filter_func, arr)): the filter runs on every element, the map on none
+         Bind(AllOf(<<ChkT(A(1), {"func"}, {}), ChkT(A(2), {"func"}, {}), ChkT(A(3), {"arr"}, {})>>), LAMBDA vs :
+           LET a == vs[3] IN
+           Bind(AllOf([i \in 1..Len(a[2]) |->
+                         Bind(Force(AppTh(vs[1], <<a[2][i]>>), f1),
+                              LAMBDA b : IF b[1] # "bool" THEN RtErr ELSE Ok(b[2]))]), LAMBDA bs :
+             LET idx == SelectSeq([i \in 1..Len(bs) |-> i], LAMBDA i : bs[i]) IN
+             Ok(ArrV([k \in 1..Len(idx) |-> AppTh(vs[2], <<a[2][idx[k]]>>)]))))
+    [] name = "flatMap" /\ Len(args) = 2 ->
+         \* arrays: std.flattenArrays(std.makeArray(n, function(i) func(arr[i]))) - func runs on every element,
+         \*         the elements of its results stay unforced;  strings: std.join("", ...) (null results skipped)
+         Both(ChkT(A(1), {"func"}, {}), ChkT(A(2), {"arr", "str"}, {}), LAMBDA f, a :
+           IF a[1] = "arr" THEN
+              Bind(SeqOf([i \in 1..Len(a[2]) |-> ChkT(Force(AppTh(f, <<a[2][i]>>), f1), {"arr"}, Junk({"str"}))]),
+                   LAMBDA ps : Ok(ArrV(CatAll([i \in 1..Len(ps) |-> ps[i][2]]))))
+           ELSE
+              Bind(SeqOf([i \in 1..Len(a[2]) |->
+                            ChkT(Force(AppTh(f, <<ValTh(StrV(<<a[2][i]>>))>>), f1), {"str", "null"}, {})]),
+                   LAMBDA ps : Ok(StrV(CatAll([i \in 1..Len(ps) |-> IF ps[i][1] = "null" THEN <<>> ELSE ps[i][2]])))))
+    [] name = "foldr" /\ Len(args) = 3 ->
+         LET ra == ChkT(A(2), {"arr"}, Junk(Containers)) IN
+         IF ~Impl /\ ra[1] = "ok" /\ ra[2][2] = <<>>
+         THEN \* DEV-6 (upstream): nothing to fold, the function is never applied (a failing / ill-typed function
+              \* argument is left open)
+              LET rf == A(1) IN
+              IF rf[1] = "ok" /\ rf[2][1] = "func" THEN Force(T(3), f1)
+              ELSE IF rf[1] = "bottom" THEN Bottom ELSE Outside
+         ELSE Both(ChkT(A(1), {"func"}, {}), ra, LAMBDA f, a : FoldR(f, a[2], T(3), f1))
+    [] name = "range" /\ Len(args) = 2 ->
+         \* std.makeArray(to - from + 1, function(i) i + from)
+         Both(ChkT(A(1), {"num"}, {}), ChkT(A(2), {"num"}, {}), LAMBDA a, b :
+           IF b[2] - a[2] + 1 > 12 THEN Outside
+           ELSE IF b[2] < a[2] - 1 THEN (IF Impl THEN Ok(ArrV(<<>>)) ELSE RtErr)     \* DEV-7
+           ELSE Ok(ArrV([i \in 1..(b[2] - a[2] + 1) |-> ValTh(NumV(a[2] + i - 1))])))
+    [] name = "repeat" /\ Len(args) = 2 ->
+         \* std.join(joiner, std.makeArray(count, function(i) what)): the elements of `what` stay unforced
+         Both(ChkT(A(1), {"str", "arr"}, {}), ChkT(A(2), {"num"}, {}), LAMBDA w, n :
+           IF n[2] < 0 THEN RtErr
+           ELSE IF n[2] > 16 \/ n[2] * Len(w[2]) > 16 THEN Outside
+           ELSE Ok(<<w[1], CatAll([i \in 1..n[2] |-> w[2]])>>))
+    [] name = "slice" /\ Len(args) = 4 ->
+         Both(A(1), AllOf(<<A(2), A(3), A(4)>>), LAMBDA v, ix : SliceV(v, ix))
+    [] name = "join" /\ Len(args) = 2 ->
+         Both(ChkT(A(1), {"str", "arr"}, {}), ChkT(A(2), {"arr"}, {}), LAMBDA sep, a : JoinV(sep, a, f1))
+    [] name = "lines" /\ Len(args) = 1 ->
+         \* std.join("\n", arr + [""])
+         Bind(A(1), LAMBDA a : Bind(BinOp("+", a, ArrV(<<ValTh(StrV(<<>>))>>), f1), LAMBDA s :
+           IF s[1] # "arr" THEN RtErr ELSE JoinV(StrV(<<10>>), s, f1)))
+    [] name = "deepJoin" /\ Len(args) = 1 ->
+         Bind(A(1), LAMBDA v : Bind(DeepJoin(v, f1), LAMBDA cs : Ok(StrV(cs))))
+    [] name = "flattenArrays" /\ Len(args) = 1 ->
+         \* std.foldl(function(a, b) a + b, arrs, []): every element of arrs is forced (left to right) and
+         \* must be an array; nothing inside them is forced
+         Bind(ChkT(A(1), {"arr"}, Junk(Containers)), LAMBDA a :
+           Bind(SeqOf([i \in 1..Len(a[2]) |-> ChkT(Force(a[2][i], f1), {"arr"}, Junk({"str"}))]),
+                LAMBDA ps : Ok(ArrV(CatAll([i \in 1..Len(ps) |-> ps[i][2]])))))
+    [] name = "flattenDeepArray" /\ Len(args) = 1 ->
+         Bind(A(1), LAMBDA v : Bind(FlatDeep(v, f1), LAMBDA ts : Ok(ArrV(ts))))
+    [] name = "reverse" /\ Len(args) = 1 ->
+         \* std.makeArray(l, function(i) arr[l - i - 1]): no element is forced
+         Bind(ChkT(A(1), {"arr", "str"}, Junk({"obj", "func"})), LAMBDA a :
+           LET n == Len(a[2]) IN
+           Ok(ArrV([i \in 1..n |-> IF a[1] = "arr" THEN a[2][n - i + 1] ELSE ValTh(StrV(<<a[2][n - i + 1]>>))])))
+    [] name = "member" /\ Len(args) = 2 ->
+         \* arrays: DEV-1 left to right up to the first equal element | upstream std.count(arr, x) > 0
+         \* strings: x occurs in arr; DEV-5 the empty string occurs | upstream std.length(std.findSubstr(x, arr)) > 0
+         Bind(A(1), LAMBDA a :
+           CASE a[1] = "arr" ->
+                  IF Impl THEN ContainsV(a[2], T(2), f1)
+                  ELSE Bind(EqAll(a[2], T(2), f1), LAMBDA es : Ok(BoolV(\E i \in 1..Len(es) : es[i])))
+             [] a[1] = "str" -> Bind(A(2), LAMBDA x :
+                                  IF x[1] # "str" THEN RtErr
+                                  ELSE Ok(BoolV((Impl \/ x[2] # <<>>) /\ IsSub(x[2], a[2]))))
+             [] OTHER -> RtErr)
+    [] name = "count" /\ Len(args) = 2 ->
+         \* std.length(std.filter(function(v) v == x, arr))
+         Bind(ChkT(A(1), {"arr"}, {}), LAMBDA a :
+           Bind(EqAll(a[2], T(2), f1), LAMBDA es : Ok(NumV(Cardinality({i \in 1..Len(es) : es[i]})))))
+    [] name = "find" /\ Len(args) = 2 ->
+         \* std.filter(function(i) arr[i] == value, std.range(0, std.length(arr) - 1))
+         Bind(ChkT(A(2), {"arr"}, {}), LAMBDA a :
+           Bind(EqAll(a[2], T(1), f1), LAMBDA es :
+             LET idx == SelectSeq([i \in 1..Len(es) |-> i], LAMBDA i : es[i]) IN
+             Ok(ArrV([k \in 1..Len(idx) |-> ValTh(NumV(idx[k] - 1))]))))
+    [] name = "contains" /\ Len(args) = 2 ->
+         Bind(ChkT(A(1), {"arr"}, {}), LAMBDA a : ContainsV(a[2], T(2), f1))
+    [] name = "remove" /\ Len(args) = 2 ->
+         \* the array without the first element equal to elem;
+         \* DEV-2 compared left to right up to that element | upstream `std.find(elem, arr)` compares every element
+         Bind(ChkT(A(1), {"arr"}, {}), LAMBDA a :
+           IF Impl THEN
+              LET go[i \in 0..Len(a[2])] ==
+                    IF i = Len(a[2]) THEN Ok(a)
+                    ELSE Bind(EqualTh(a[2][i + 1], T(2), f1), LAMBDA e :
+                           IF e THEN Ok(ArrV(SubSeq(a[2], 1, i) \o SubSeq(a[2], i + 2, Len(a[2])))) ELSE go[i + 1])
+              IN go[0]
+           ELSE
+           Bind(EqAll(a[2], T(2), f1), LAMBDA es :
+             LET hit == {i \in 1..Len(es) : es[i]} IN
+             IF hit = {} THEN Ok(a)
+             ELSE LET k == CHOOSE i \in hit : \A j \in hit : i <= j IN
+                  Ok(ArrV(SubSeq(a[2], 1, k - 1) \o SubSeq(a[2], k + 1, Len(a[2]))))))
+    [] name = "removeAt" /\ Len(args) = 2 ->
+         \* the array without the element at index `at` (unchanged when there is none)
+         \* DEV-3 both arguments forced and type-checked | upstream
+         \* `[arr[i] for i in std.range(0, std.length(arr) - 1) if i != at]`
+         LET ra == ChkT(A(1), {"arr"}, Junk(Containers)) IN
+         IF ~Impl /\ ra[1] = "ok" /\ ra[2][2] = <<>>
+         THEN LET rx == A(2) IN     \* `at` is not looked at
+              IF rx[1] = "ok" /\ rx[2][1] = "num" THEN Ok(ra[2])
+              ELSE IF rx[1] = "bottom" THEN Bottom ELSE Outside
+         ELSE Both(ra, ChkT(A(2), {"num"}, Junk(AllTypes)), LAMBDA a, x :
+                IF x[2] < 0 \/ x[2] >= Len(a[2]) THEN Ok(a)
+                ELSE Ok(ArrV(SubSeq(a[2], 1, x[2]) \o SubSeq(a[2], x[2] + 2, Len(a[2])))))
+    [] name \in {"all", "any"} /\ Len(args) = 1 ->
+         Bind(ChkT(A(1), {"arr"}, {}), LAMBDA a : AnyAll(a[2], name = "any", f1))
+    [] name = "sum" /\ Len(args) = 1 ->
+         Bind(ChkT(A(1), {"arr"}, Junk(Containers)), LAMBDA a : SumV(a[2], f1))
+    [] name = "avg" /\ Len(args) = 1 ->
+         \* std.sum(arr) / std.length(arr)
+         Bind(ChkT(A(1), {"arr"}, Junk(Containers)), LAMBDA a :
+           Bind(SumV(a[2], f1), LAMBDA s : BinOp("/", s, NumV(Len(a[2])), f1)))
+    [] name \in {"minArray", "maxArray"} /\ Len(args) = 1 ->
+         Bind(ChkT(A(1), {"arr"}, Junk(Containers)), LAMBDA a : MinMaxV(a[2], name = "minArray", f1))
+    [] name \in {"objectValues", "objectValuesAll", "objectKeysValues", "objectKeysValuesAll"} /\ Len(args) = 1 ->
+         \* [o[k] for k in std.objectFields(o)] / [{key: k, value: o[k]} for k in ...]: no field is evaluated
+         Bind(ChkT(A(1), {"obj"}, {}), LAMBDA o :
+           LET ns == SortCps(IF name \in {"objectValues", "objectKeysValues"} THEN VisibleNames(o[2]) ELSE AllNames(o[2]))
+               oenv == << <<"vals", <<"o">>, <<ValTh(o)>> >> >>
+               val(k) == <<"index", <<"var", "o">>, <<"str", k>> >>
+               kv(k) == <<"obj", << <<"fld", <<"expr", <<"str", <<107, 101, 121>> >> >>, "d", FALSE, <<"str", k>> >>,
+                                    <<"fld", <<"expr", <<"str", <<118, 97, 108, 117, 101>> >> >>, "d", FALSE, val(k)>> >> >> IN
+           Ok(ArrV([i \in 1..Len(ns) |->
+                      Th(IF name \in {"objectValues", "objectValuesAll"} THEN val(ns[i]) ELSE kv(ns[i]), oenv, NoSc)])))
+    [] name = "objectHasEx" /\ Len(args) = 3 ->
+         Bind(AllOf(<<ChkT(A(1), {"obj"}, {}), ChkT(A(2), {"str"}, {}), ChkT(A(3), {"bool"}, {})>>), LAMBDA vs :
+           Ok(BoolV(vs[2][2] \in (IF vs[3][2] THEN AllNames(vs[1][2]) ELSE VisibleNames(vs[1][2])))))
+    [] name = "objectFieldsEx" /\ Len(args) = 2 ->
+         Both(ChkT(A(1), {"obj"}, {}), ChkT(A(2), {"bool"}, {}), LAMBDA o, h :
+           LET ns == SortCps(IF h[2] THEN AllNames(o[2]) ELSE VisibleNames(o[2])) IN
+           Ok(ArrV([i \in 1..Len(ns) |-> ValTh(StrV(ns[i]))])))
+    [] name \in {"__array_less", "__array_less_or_equal", "__array_greater", "__array_greater_or_equal"} /\ Len(args) = 2 ->
+         \* std.__compare_array(arr1, arr2) against 0
+         Both(ChkT(A(1), {"arr"}, Junk(Containers)), ChkT(A(2), {"arr"}, Junk(Containers)), LAMBDA a, b :
+           Bind(CmpV(a, b, f1), LAMBDA k :
+             Ok(BoolV(CASE name = "__array_less" -> k < 0 [] name = "__array_less_or_equal" -> k <= 0
+                        [] name = "__array_greater" -> k > 0 [] name = "__array_greater_or_equal" -> k >= 0))))
+    [] OTHER -> Outside
+
 StdCall(name, args, env, sc, fuel) ==
   IF fuel = 0 THEN Bottom ELSE
   LET A(i) == Eval(args[i], env, sc, fuel - 1)
@@ -616,7 +971,7 @@ StdCall(name, args, env, sc, fuel) ==
          LET m1 == Bind(A(1), LAMBDA v : Manifest(v, fuel - 1))
              m2 == Bind(A(2), LAMBDA v : Manifest(v, fuel - 1)) IN
          IF m1[1] = "ok" /\ m2[1] = "ok" THEN Ok(FromJson(MergePatchJ(m1[2], m2[2]))) ELSE Outside
-    [] OTHER -> Outside
+    [] OTHER -> LibCall(name, args, env, sc, fuel)
 
 -----------------------------------------------------------------------------
 Eval(e, env, sc, fuel) ==
@@ -667,19 +1022,7 @@ Eval(e, env, sc, fuel) ==
          Bind(E(e[2]), LAMBDA v : IF v[1] # "obj" THEN RtErr ELSE ObjIndex(v, Ascii1(e[3]), fuel - 1))
     [] e[1] = "slice" ->
          LET opt(x) == IF x = <<"none">> THEN Ok(NullV) ELSE E(x) IN
-         Both(E(e[2]), AllOf(<<opt(e[3]), opt(e[4]), opt(e[5])>>), LAMBDA v, ix :
-           IF v[1] \notin {"arr", "str"} THEN RtErr
-           ELSE IF \E k \in 1..3 : ix[k][1] \notin {"null", "num"} THEN RtErr
-           ELSE IF \E k \in 1..3 : ix[k][1] = "num" /\ ix[k][2] < 0 THEN Outside
-           ELSE LET n == Len(v[2])
-                    a == IF ix[1][1] = "null" THEN 0 ELSE ix[1][2]
-                    b0 == IF ix[2][1] = "null" THEN n ELSE ix[2][2]
-                    b == IF b0 > n THEN n ELSE b0
-                    s == IF ix[3][1] = "null" THEN 1 ELSE ix[3][2] IN
-                IF s = 0 THEN RtErr
-                ELSE LET cnt == IF b <= a THEN 0 ELSE ((b - a - 1) \div s) + 1
-                         sel == [k \in 1..cnt |-> v[2][a + (k - 1) * s + 1]] IN
-                     Ok(IF v[1] = "arr" THEN ArrV(sel) ELSE StrV(sel)))
+         Both(E(e[2]), AllOf(<<opt(e[3]), opt(e[4]), opt(e[5])>>), LAMBDA v, ix : SliceV(v, ix))
     [] e[1] = "func" -> Ok(FuncV(e[2], e[3], env, sc))
     [] e[1] = "call" ->
          Bind(E(e[2]), LAMBDA f :
